@@ -259,3 +259,775 @@ Qed.
 (* applied_to_unchecked (Raft::new only): the restart window opens *)
 Lemma applied_to_unchecked_pres rw l i : RepInv rw l -> RepInv true (applied_to_unchecked l i).
 Proof. apply applied_to_unchecked_window. Qed.
+
+(* ================================================================== *)
+(* Part B. M/Raft.v                                                     *)
+(* ================================================================== *)
+Transparent log_append last_index stamp.
+
+Definition LI (rw : bool) (r : raft) : Prop := RepInv rw (r_log r).
+Definition LogOK (r : raft) : Prop := exists rw, LI rw r.
+
+(* head-room: the next k indexes after the last one are proper u64 values
+   (the model, like the Rust, does not check [last_index + 1] for overflow when it
+   numbers new entries; C14's RepInv carries last_index < u64::MAX) *)
+Definition room (k : N) (r : raft) : Prop := last_index (r_log r) + k < u64_max.
+
+Lemma LogOK_iff r : LogOK r <-> LI true r.
+Proof. split; [intros [rw H]; exact (RepInv_true rw _ H)|intros H; exists true; exact H]. Qed.
+
+Lemma LI_same rw r r' : r_log r' = r_log r -> LI rw r -> LI rw r'.
+Proof. unfold LI. intros ->. exact (fun H => H). Qed.
+
+Lemma room_same k r r' : last_index (r_log r') = last_index (r_log r) -> room k r -> room k r'.
+Proof. unfold room. intros ->. exact (fun H => H). Qed.
+
+Lemma room_mono k k' r : k' <= k -> room k r -> room k' r.
+Proof. unfold room. lia. Qed.
+
+Lemma room0 rw r : LI rw r -> room 0 r.
+Proof. intros H. unfold room. pose proof (RepInv_last_bound rw _ H). lia. Qed.
+
+(* ---------------- frames: r_log untouched ---------------- *)
+Lemma lf_log r r' : lf r r' -> r_log r' = r_log r.
+Proof. intros H. exact (proj1 H). Qed.
+
+Lemma send_log r m r' : send r m = Ok r' -> r_log r' = r_log r.
+Proof. intros H. destruct (send_exact _ _ _ H) as (m' & -> & _). reflexivity. Qed.
+
+Lemma maybe_send_append_log r to pr ae r' pr' b :
+  maybe_send_append r to pr ae = Ok (r', pr', b) -> r_log r' = r_log r.
+Proof. intros H. apply lf_log. eapply maybe_send_append_lf; exact H. Qed.
+
+Lemma send_append_to_log r to r' : send_append_to r to = Ok r' -> r_log r' = r_log r.
+Proof. intros H. apply lf_log. eapply send_append_to_lf; exact H. Qed.
+
+Lemma send_append_aggressively_log r to r' : send_append_aggressively r to = Ok r' -> r_log r' = r_log r.
+Proof. intros H. apply lf_log. eapply send_append_aggressively_lf; exact H. Qed.
+
+Lemma bcast_append_log r r' : bcast_append r = Ok r' -> r_log r' = r_log r.
+Proof. intros H. apply lf_log. eapply bcast_append_lf; exact H. Qed.
+
+Lemma bcast_heartbeat_with_ctx_log r ctx r' : bcast_heartbeat_with_ctx r ctx = Ok r' -> r_log r' = r_log r.
+Proof. intros H. apply lf_log. eapply bcast_heartbeat_with_ctx_lf; exact H. Qed.
+
+Lemma bcast_heartbeat_log r r' : bcast_heartbeat r = Ok r' -> r_log r' = r_log r.
+Proof. unfold bcast_heartbeat. apply bcast_heartbeat_with_ctx_log. Qed.
+
+Lemma send_timeout_now_log r to r' : send_timeout_now r to = Ok r' -> r_log r' = r_log r.
+Proof. unfold send_timeout_now. apply send_log. Qed.
+
+Lemma send_request_snapshot_log r r' : send_request_snapshot r = Ok r' -> r_log r' = r_log r.
+Proof. intros H. apply lf_log. eapply send_request_snapshot_lf; exact H. Qed.
+
+Lemma send_vote_requests_log ids : forall r vm t cm ct tr r',
+  send_vote_requests ids r vm t cm ct tr = Ok r' -> r_log r' = r_log r.
+Proof.
+  induction ids as [|id rest IH]; intros r vm t cm ct tr r' H; cbn [send_vote_requests] in H.
+  - inversion H; reflexivity.
+  - destruct (id =? r_id r); [eapply IH; exact H|].
+    inv_bind H. inv_bind H. apply IH in H. apply send_log in Hx0. congruence.
+Qed.
+
+Lemma handle_ready_read_index_log r req i r' om :
+  handle_ready_read_index r req i = Ok (r', om) -> r_log r' = r_log r.
+Proof.
+  unfold handle_ready_read_index. intros H.
+  destruct ((m_from req =? INVALID_ID) || (m_from req =? r_id r)).
+  - inv_bind H. inversion H; reflexivity.
+  - inversion H; reflexivity.
+Qed.
+
+Lemma respond_reads_log rss : forall r r', respond_reads r rss = Ok r' -> r_log r' = r_log r.
+Proof.
+  induction rss as [|rs rest IH]; intros r r' H; cbn [respond_reads] in H.
+  - inversion H; reflexivity.
+  - inv_bind H. destruct x as [r1 om]. inv_bind H. apply IH in H.
+    apply handle_ready_read_index_log in Hx.
+    destruct om; [apply send_log in Hx0|inversion Hx0; subst]; congruence.
+Qed.
+
+Lemma handle_transfer_leader_log r m r' : handle_transfer_leader r m = Ok r' -> r_log r' = r_log r.
+Proof. intros H. apply lf_log. eapply handle_transfer_leader_lf; exact H. Qed.
+
+Lemma handle_snapshot_status_log r m r' : handle_snapshot_status r m = Ok r' -> r_log r' = r_log r.
+Proof. intros H. apply lf_log. eapply handle_snapshot_status_lf; exact H. Qed.
+
+Lemma handle_unreachable_log r m r' : handle_unreachable r m = Ok r' -> r_log r' = r_log r.
+Proof. intros H. apply lf_log. eapply handle_unreachable_lf; exact H. Qed.
+
+Lemma reset_log r t r' : reset r t = Ok r' -> r_log r' = r_log r.
+Proof. intros H. exact (proj2 (reset_msgs_log _ _ _ H)). Qed.
+
+Lemma become_follower_log r t l r' : become_follower r t l = Ok r' -> r_log r' = set_limit (r_log r) 0.
+Proof. intros H. exact (proj2 (become_follower_msgs_log _ _ _ _ H)). Qed.
+
+Lemma become_candidate_log r r' : become_candidate r = Ok r' -> r_log r' = r_log r.
+Proof.
+  unfold become_candidate. intros H. destruct (is_leader r); [discriminate|].
+  inv_bind H. inversion H; subst. cbn. eapply reset_log; exact Hx.
+Qed.
+
+Lemma become_pre_candidate_log r r' : become_pre_candidate r = Ok r' -> r_log r' = r_log r.
+Proof.
+  unfold become_pre_candidate. intros H. destruct (is_leader r); [discriminate|].
+  inversion H; reflexivity.
+Qed.
+
+Lemma filter_conf_changes_log r ents info i r' ents' ok :
+  filter_conf_changes r ents info i = (r', ents', ok) -> r_log r' = r_log r.
+Proof. intros H. exact (proj1 (filter_frame_fields _ _ _ _ _ _ _ H)). Qed.
+
+Lemma reduce_uncommitted_size_log r ents : r_log (reduce_uncommitted_size r ents) = r_log r.
+Proof.
+  unfold reduce_uncommitted_size. destruct (negb (is_leader r)); [reflexivity|].
+  match goal with |- r_log (if ?c then _ else _) = _ => destruct c end; [reflexivity|].
+  match goal with |- r_log (if ?c then _ else _) = _ => destruct c end; reflexivity.
+Qed.
+
+Lemma handle_heartbeat_response_log r m r' :
+  handle_heartbeat_response r m = Ok r' -> r_log r' = r_log r.
+Proof.
+  unfold handle_heartbeat_response. intros H.
+  destruct (get_pr r (m_from m)) as [pr0|]; [|inversion H; reflexivity].
+  inv_bind H. inv_bind H.
+  assert (H1 : r_log x0 = r_log r).
+  { match type of Hx0 with (if ?c then _ else _) = _ => destruct c end.
+    - inv_bind Hx0. destruct x1 as [[ra pa] ba]. inversion Hx0; subst. cbn.
+      eapply maybe_send_append_log; exact Hx1.
+    - inversion Hx0; reflexivity. }
+  match type of H with (if ?c then _ else _) = _ => destruct c end; [inversion H; subst; exact H1|].
+  destruct (ro_recv_ack (r_read_only x0) (m_from m) (m_context m)) as [ro' acks].
+  destruct acks as [a|]; [|inversion H; subst; exact H1].
+  match type of H with (if ?c then _ else _) = _ => destruct c end; [|inversion H; subst; exact H1].
+  inv_bind H. destruct x1 as [ro2 rss]. apply respond_reads_log in H. rewrite H. exact H1.
+Qed.
+
+(* ---------------- become_follower ---------------- *)
+Lemma become_follower_pres rw r t l r' :
+  become_follower r t l = Ok r' -> LI rw r ->
+  LI rw r' /\ last_index (r_log r') = last_index (r_log r).
+Proof.
+  intros H HI. apply become_follower_log in H. unfold LI. rewrite H.
+  split; [apply RepInv_set_limit; exact HI|reflexivity].
+Qed.
+
+(* ---------------- maybe_commit ---------------- *)
+Lemma maybe_commit_pres rw r r' b :
+  maybe_commit r = Ok (r', b) -> LI rw r -> LI rw r' /\ same_su (r_log r) (r_log r').
+Proof.
+  unfold maybe_commit. intros H HI. inv_bind H. destruct x as [l' b'].
+  destruct (log_maybe_commit_pres rw _ _ _ _ _ Hx HI) as [A B].
+  destruct b'; [destruct (get_pr r (r_id r))|]; inversion H; subst; split; assumption.
+Qed.
+
+(* ---------------- append_entry ---------------- *)
+Lemma stamp_length es : forall t n, length (stamp es t n) = length es.
+Proof. induction es as [|e es IH]; intros t n; cbn [stamp length]; [reflexivity|]. rewrite IH. reflexivity. Qed.
+
+Lemma stamp_contig es : forall t n, contiguous_from n (stamp es t n).
+Proof.
+  induction es as [|e es IH]; intros t n; cbn [stamp contiguous_from]; [exact I|].
+  split; [reflexivity|apply IH].
+Qed.
+
+Lemma stamp_nz es : forall t n, t <> 0 -> nz_terms (stamp es t n).
+Proof.
+  induction es as [|e es IH]; intros t n Ht; cbn [stamp]; [constructor|].
+  constructor; [exact Ht|apply IH; exact Ht].
+Qed.
+
+Lemma append_entry_pres rw r es r' ok :
+  append_entry r es = Ok (r', ok) -> LI rw r -> room (N.of_nat (length es)) r ->
+  LI rw r' /\ store (r_log r') = store (r_log r) /\ applied (r_log r') = applied (r_log r)
+  /\ committed (r_log r') = committed (r_log r)
+  /\ last_index (r_log r') <= last_index (r_log r) + N.of_nat (length es).
+Proof.
+  intros H HI Hroom. destruct (append_entry_spec _ _ _ _ H) as (_ & _ & Hl).
+  destruct ok.
+  2:{ unfold LI. rewrite Hl. splits; auto. lia. }
+  destruct Hl as (x & Hx & Hl). unfold LI. rewrite Hl. clear Hl H.
+  destruct es as [|e es].
+  - cbn in Hx. inversion Hx; subst. cbn [fst length]. splits; auto. lia.
+  - destruct x as [l' li]. cbn [fst].
+    remember (stamp (e :: es) (r_term r) (last_index (r_log r) + 1)) as st eqn:Est.
+    pose proof (stamp_contig (e :: es) (r_term r) (last_index (r_log r) + 1)) as Hc.
+    pose proof (stamp_length (e :: es) (r_term r) (last_index (r_log r) + 1)) as Hlen.
+    rewrite <- Est in Hc, Hlen.
+    destruct st as [|e0 t0]; [cbn in Hlen; discriminate|].
+    assert (Hi0 : e_index e0 = last_index (r_log r) + 1) by (destruct Hc; assumption).
+    unfold room in Hroom.
+    destruct (log_append_pres rw _ _ _ _ _ Hx HI) as (A & B & C0 & D & E & F).
+    + rewrite Hi0. exact Hc.
+    + rewrite Hi0. pose proof (RepInv_persisted_le_last rw _ HI). lia.
+    + rewrite Hi0, Hlen. lia.
+    + splits; auto. rewrite F, E, Hi0, Hlen. lia.
+Qed.
+
+(* ---------------- become_leader ---------------- *)
+Lemma become_leader_pres rw r r' :
+  become_leader r = Ok r' -> LI rw r -> room 1 r -> LI rw r'.
+Proof.
+  unfold become_leader. intros H HI Hroom.
+  destruct (role_eqb (r_state r) Follower); [discriminate|].
+  inv_bind H. apply reset_log in Hx.
+  match type of H with (match ?g with _ => _ end) = _ => destruct g as [pr|] end; [|discriminate].
+  inv_bind H. destruct x0 as [r6 ok]. destruct ok; [|discriminate]. inversion H; subst. clear H.
+  eapply (append_entry_pres rw); [exact Hx0| |].
+  - eapply LI_same; [|exact HI]. cbn. exact Hx.
+  - eapply room_same; [|exact Hroom]. cbn. rewrite Hx. reflexivity.
+Qed.
+
+(* ---------------- poll / campaign / hup ---------------- *)
+Lemma poll_gen_pres rw rc r from v r' res :
+  (forall ra ra', rc ra = Ok ra' -> LI rw ra -> room 1 ra -> LI rw ra') ->
+  poll_gen rc r from v = Ok (r', res) -> LI rw r -> room 1 r -> LI rw r'.
+Proof.
+  unfold poll_gen. intros Hrc H HI Hroom.
+  set (r0 := r <| r_prs := (r_prs r) <| t_votes := Quorum.record_vote (t_votes (r_prs r)) from v |> |>) in *.
+  assert (H0 : LI rw r0) by exact HI.
+  assert (Hr0 : room 1 r0) by exact Hroom.
+  clearbody r0.
+  destruct (Quorum.tracker_vote_result _ _ _).
+  - inversion H; subst. exact H0.
+  - inv_bind H. inversion H; subst. eapply become_follower_pres; eassumption.
+  - destruct (role_eqb (r_state r0) PreCandidate).
+    + inv_bind H. inversion H; subst. eapply Hrc; eassumption.
+    + inv_bind H. inv_bind H. inversion H; subst.
+      apply bcast_append_log in Hx0. eapply LI_same; [exact Hx0|].
+      eapply become_leader_pres; eassumption.
+Qed.
+
+Lemma campaign_real_pres rw tr r r' :
+  campaign_real tr r = Ok r' -> LI rw r -> room 1 r -> LI rw r'.
+Proof.
+  unfold campaign_real. intros H HI Hroom. inv_bind H. apply become_candidate_log in Hx.
+  inv_bind H. destruct x0 as [r2 res].
+  assert (H2 : LI rw r2).
+  { eapply poll_gen_pres; [|exact Hx0| |].
+    - intros ra ra' Hp; discriminate.
+    - eapply LI_same; [exact Hx|exact HI].
+    - eapply room_same; [|exact Hroom]. rewrite Hx. reflexivity. }
+  destruct res.
+  - inv_bind H. apply send_vote_requests_log in H. eapply LI_same; eassumption.
+  - inv_bind H. apply send_vote_requests_log in H. eapply LI_same; eassumption.
+  - inversion H; subst. exact H2.
+Qed.
+
+Lemma poll_pres rw r from v r' res :
+  poll r from v = Ok (r', res) -> LI rw r -> room 1 r -> LI rw r'.
+Proof. unfold poll. apply poll_gen_pres. intros ra ra'. apply campaign_real_pres. Qed.
+
+Lemma campaign_pre_pres rw r r' :
+  campaign_pre r = Ok r' -> LI rw r -> room 1 r -> LI rw r'.
+Proof.
+  unfold campaign_pre. intros H HI Hroom. inv_bind H. apply become_pre_candidate_log in Hx.
+  inv_bind H. destruct x0 as [r2 res].
+  assert (H2 : LI rw r2).
+  { eapply poll_pres; [exact Hx0| |].
+    - eapply LI_same; [exact Hx|exact HI].
+    - eapply room_same; [|exact Hroom]. rewrite Hx. reflexivity. }
+  destruct res.
+  - inv_bind H. apply send_vote_requests_log in H. eapply LI_same; eassumption.
+  - inv_bind H. apply send_vote_requests_log in H. eapply LI_same; eassumption.
+  - inversion H; subst. exact H2.
+Qed.
+
+Lemma hup_pres rw r tl r' : hup r tl = Ok r' -> LI rw r -> room 1 r -> LI rw r'.
+Proof.
+  intros H HI Hroom. apply hup_spec in H.
+  destruct H as [[_ ->]|[(_ & _ & ->)|[(_ & _ & _ & ->)|(_ & _ & _ & Hc)]]]; try exact HI.
+  unfold hup_campaign in Hc. destruct tl; [eapply campaign_real_pres; eassumption|].
+  destruct (r_pre_vote r); [eapply campaign_pre_pres|eapply campaign_real_pres]; eassumption.
+Qed.
+
+Lemma maybe_commit_by_vote_pres rw r m r' :
+  maybe_commit_by_vote r m = Ok r' -> LI rw r ->
+  LI rw r' /\ last_index (r_log r') = last_index (r_log r).
+Proof.
+  intros H HI. apply maybe_commit_by_vote_spec in H.
+  destruct H as [-> |(l' & b & _ & _ & _ & _ & Hmc & [-> |(_ & _ & _ & Hbf)])]; [split; [exact HI|reflexivity]| |].
+  - destruct (log_maybe_commit_pres rw _ _ _ _ _ Hmc HI) as [A B].
+    split; [exact A|]. cbn. apply same_su_last; exact B.
+  - destruct (log_maybe_commit_pres rw _ _ _ _ _ Hmc HI) as [A B].
+    destruct (become_follower_pres rw _ _ _ _ Hbf A) as [C0 D]. split; [exact C0|].
+    rewrite D. cbn. apply same_su_last; exact B.
+Qed.
+
+(* ---------------- follower-side handlers ---------------- *)
+
+(* shape of an inbound MsgAppend, as weak as [maybe_append_ok] allows: the entries
+   are numbered consecutively after m_index, carry non-zero terms, do not run past
+   u64::MAX, and the anchor is inside the log or has a non-zero term *)
+Definition append_wf (li : N) (m : msg) : Prop :=
+  contiguous_from (m_index m + 1) (m_entries m) /\ nz_terms (m_entries m)
+  /\ (m_index m <= li \/ m_log_term m <> 0)
+  /\ m_index m + N.of_nat (length (m_entries m)) < u64_max.
+
+Lemma handle_append_entries_pres rw r m r' :
+  handle_append_entries r m = Ok r' -> append_wf (last_index (r_log r)) m -> LI rw r -> LI rw r'.
+Proof.
+  unfold handle_append_entries. intros H (W1 & W2 & W3 & W4) HI.
+  destruct (negb (r_pending_request_snapshot r =? INVALID_INDEX)).
+  { apply send_request_snapshot_log in H. eapply LI_same; eassumption. }
+  destruct (m_index m <? committed (r_log r)).
+  { apply send_log in H. eapply LI_same; eassumption. }
+  inv_bind H. destruct x as [l' res].
+  destruct (maybe_append_pres rw _ _ _ _ _ _ _ Hx HI W1 W2 W3 W4) as (A & _).
+  destruct res as [[a b]|].
+  - apply send_log in H. eapply LI_same; [exact H|exact A].
+  - inv_bind H. destruct x as [hi [ht|]]; [|discriminate].
+    apply send_log in H. eapply LI_same; [exact H|exact A].
+Qed.
+
+Lemma handle_heartbeat_pres rw r m r' : handle_heartbeat r m = Ok r' -> LI rw r -> LI rw r'.
+Proof.
+  unfold handle_heartbeat. intros H HI. inv_bind H.
+  destruct (commit_to_pres rw _ _ _ Hx HI) as [A _].
+  match type of H with (if ?c then _ else _) = _ => destruct c end.
+  - apply send_request_snapshot_log in H. eapply LI_same; [exact H|exact A].
+  - apply send_log in H. eapply LI_same; [exact H|exact A].
+Qed.
+
+(* ---------------- post_conf_change ---------------- *)
+Lemma post_conf_change_pres rw r r' cs :
+  post_conf_change r = Ok (r', cs) -> LI rw r -> LI rw r' /\ same_su (r_log r) (r_log r').
+Proof.
+  unfold post_conf_change. intros H HI.
+  set (r0 := r <| r_promotable := voters_contains (conf_of r) (r_id r) |>) in *.
+  assert (H0 : LI rw r0) by exact HI.
+  assert (E0 : r_log r0 = r_log r) by reflexivity.
+  clearbody r0.
+  match type of H with (if ?c then _ else _) = _ => destruct c end;
+    [inversion H; subst; rewrite E0; split; [exact H0|apply same_su_refl]|].
+  match type of H with (if ?c then _ else _) = _ => destruct c end;
+    [inversion H; subst; rewrite E0; split; [exact H0|apply same_su_refl]|].
+  inv_bind H. destruct x as [r1 b].
+  destruct (maybe_commit_pres rw _ _ _ Hx H0) as [H1 S1]. rewrite E0 in S1.
+  inv_bind H.
+  assert (E2 : r_log x = r_log r1).
+  { destruct b; [eapply bcast_append_log; exact Hx0|].
+    apply lf_log. revert Hx0. apply for_each_peer_lf. intros ra id ra' Hf.
+    destruct (get_pr ra id); [|discriminate]. inv_bind Hf. destruct x0 as [[rb pb] bb].
+    inversion Hf; subst. eapply lf_trans; [eapply maybe_send_append_lf; eassumption|apply put_pr_lf]. }
+  inv_bind H.
+  assert (E3 : r_log x0 = r_log x).
+  { destruct (ro_last_pending_request_ctx (r_read_only x)); [|inversion Hx1; reflexivity].
+    destruct (ro_recv_ack (r_read_only x) (r_id x) l) as [ro' acks].
+    destruct acks as [a|]; [|inversion Hx1; reflexivity].
+    match type of Hx1 with (if ?c then _ else _) = _ => destruct c end; [|inversion Hx1; reflexivity].
+    inv_bind Hx1. destruct x1 as [ro2 rss]. apply respond_reads_log in Hx1. rewrite Hx1. reflexivity. }
+  inversion H; subst.
+  assert (E4 : r_log (match r_lead_transferee x0 with
+                      | Some e => if negb (voters_contains (conf_of x0) e)
+                                  then x0 <| r_lead_transferee := None |> else x0
+                      | None => x0 end) = r_log x0).
+  { destruct (r_lead_transferee x0); [|reflexivity].
+    destruct (negb (voters_contains (conf_of x0) n)); reflexivity. }
+  unfold LI. rewrite E4, E3, E2. split; [exact H1|exact S1].
+Qed.
+
+(* ---------------- restore / handle_snapshot ---------------- *)
+Lemma restore_pres rw r s r' b :
+  restore r s = Ok (r', b) -> s_index s < u64_max -> LI rw r -> LI rw r'.
+Proof.
+  unfold restore. intros H Hb HI.
+  destruct (s_index s <? committed (r_log r)); [inversion H; subst; exact HI|].
+  destruct (negb (role_eqb (r_state r) Follower)).
+  { inv_bind H. inversion H; subst. eapply become_follower_pres; eassumption. }
+  match type of H with (if ?c then _ else _) = _ => destruct c end; [inversion H; subst; exact HI|].
+  inv_bind H.
+  match type of H with (if ?c then _ else _) = _ => destruct c end.
+  { inv_bind H. inversion H; subst. exact (proj1 (commit_to_pres rw _ _ _ Hx0 HI)). }
+  inv_bind H.
+  destruct (log_restore_pres rw _ _ _ Hx0 HI Hb) as (A & _).
+  destruct (ConfChange.restore empty_tracker (s_cs s)) as [[c' ids']|e]; [|discriminate].
+  inv_bind H. destruct x1 as [r1 new_cs].
+  match type of Hx1 with post_conf_change ?ra = _ =>
+    assert (Ha : LI rw ra) by exact A end.
+  destruct (post_conf_change_pres rw _ _ _ Hx1 Ha) as [H1 _].
+  match type of H with (if ?c then _ else _) = _ => destruct c end; [discriminate|].
+  destruct (get_pr r1 (r_id r1)) as [pr|]; [|discriminate].
+  destruct (next_idx pr =? 0); [discriminate|]. inversion H; subst. exact H1.
+Qed.
+
+Lemma handle_snapshot_pres rw r m r' :
+  handle_snapshot r m = Ok r' -> s_index (m_snapshot m) < u64_max -> LI rw r -> LI rw r'.
+Proof.
+  unfold handle_snapshot. intros H Hb HI. inv_bind H. destruct x as [r1 ok].
+  pose proof (restore_pres rw _ _ _ _ Hx Hb HI) as H1.
+  destruct ok; apply send_log in H; eapply LI_same; eassumption.
+Qed.
+
+(* ---------------- leader-side handlers ---------------- *)
+Lemma handle_append_response_pres rw r m r' :
+  handle_append_response r m = Ok r' -> LI rw r ->
+  LI rw r' /\ last_index (r_log r') = last_index (r_log r).
+Proof.
+  unfold handle_append_response. intros H HI. inv_bind H. clear Hx.
+  destruct (get_pr r (m_from m)) as [pr|]; [|inversion H; subst; split; [exact HI|reflexivity]].
+  destruct (m_reject m).
+  { destruct (maybe_decr_to _ _ _ _) as [pr1 dec]. destruct dec.
+    - apply send_append_to_log in H. unfold LI. rewrite H. split; [exact HI|reflexivity].
+    - inversion H; subst. split; [exact HI|reflexivity]. }
+  destruct (maybe_update _ _) as [pr1 upd]. destruct upd; cbn [negb] in H.
+  2:{ inversion H; subst. split; [exact HI|reflexivity]. }
+  inv_bind H. clear Hx. inv_bind H. destruct x1 as [r1 cmt].
+  match type of Hx with maybe_commit ?ra = _ => assert (Ha : LI rw ra) by exact HI end.
+  destruct (maybe_commit_pres rw _ _ _ Hx Ha) as [H1 S1]. cbn in S1.
+  inv_bind H. inv_bind H.
+  assert (E2 : r_log x1 = r_log r1).
+  { destruct cmt.
+    - destruct (should_bcast_commit r1); [eapply bcast_append_log; eassumption|].
+      inversion Hx0; reflexivity.
+    - destruct (is_paused _); [eapply send_append_to_log; eassumption|].
+      inversion Hx0; reflexivity. }
+  apply send_append_aggressively_log in Hx1.
+  assert (E4 : r_log r' = r_log x2).
+  { destruct (r_lead_transferee x2); [|inversion H; reflexivity].
+    destruct (n =? m_from m); [|inversion H; reflexivity].
+    destruct (get_pr x2 (m_from m)); [|discriminate].
+    destruct (matched p =? last_index (r_log x2)); [eapply send_timeout_now_log; exact H|].
+    inversion H; reflexivity. }
+  unfold LI. rewrite E4, Hx1, E2. split; [exact H1|apply same_su_last; exact S1].
+Qed.
+
+(* ---------------- step ---------------- *)
+
+(* message types whose handling can make this node leader (it then appends the
+   empty entry of its term) *)
+Definition elect_type (t : N) : bool :=
+  (t =? MsgHup) || (t =? MsgTimeoutNow) || (t =? MsgRequestVoteResponse)
+  || (t =? MsgRequestPreVoteResponse).
+
+(* well-formedness of a stepped message relative to the receiver's last index [li] *)
+Definition msg_wf (li : N) (m : msg) : Prop :=
+  (elect_type (m_type m) = true -> li + 1 < u64_max)
+  /\ (m_type m = MsgPropose -> li + N.of_nat (length (m_entries m)) < u64_max)
+  /\ (m_type m = MsgAppend -> append_wf li m)
+  /\ (m_type m = MsgSnapshot -> s_index (m_snapshot m) < u64_max).
+
+Lemma step_leader_pres rw r m r' c :
+  step_leader r m = Ok (r', c) -> msg_wf (last_index (r_log r)) m -> LI rw r -> LI rw r'.
+Proof.
+  unfold step_leader. intros H (_ & Wp & _ & _) HI.
+  destruct (m_type m =? MsgBeat).
+  { inv_bind H. inversion H; subst. apply bcast_heartbeat_log in Hx. eapply LI_same; eassumption. }
+  destruct (m_type m =? MsgCheckQuorum).
+  { destruct (quorum_recently_active (r_prs r) (r_id r)) as [prs' active] eqn:Eq.
+    destruct active; cbn [negb] in H.
+    - inversion H; subst. exact HI.
+    - inv_bind H. inversion H; subst. eapply become_follower_pres; [exact Hx|exact HI]. }
+  destruct (m_type m =? MsgPropose) eqn:Ep.
+  { apply N.eqb_eq in Ep. specialize (Wp Ep).
+    destruct (m_entries m) as [|e0 es] eqn:Ee; [discriminate|]. rewrite <- Ee in *.
+    destruct (get_pr r (r_id r)); [|inversion H; subst; exact HI].
+    destruct (r_lead_transferee r); [inversion H; subst; exact HI|].
+    dfilter H. pose proof (filter_conf_changes_log _ _ _ _ _ _ _ F) as El.
+    pose proof (filter_length _ _ _ _ _ _ _ F) as Hlen.
+    assert (H1 : LI rw a) by (eapply LI_same; eassumption).
+    destruct c0; cbn [negb] in H; [|inversion H; subst; exact H1].
+    inv_bind H. destruct x as [r2 appended].
+    destruct (append_entry_pres rw _ _ _ _ Hx H1) as (H2 & _).
+    { unfold room. rewrite El, Hlen. exact Wp. }
+    destruct appended; cbn [negb] in H.
+    - inv_bind H. inversion H; subst. apply bcast_append_log in Hx0. eapply LI_same; eassumption.
+    - inversion H; subst. exact H2. }
+  destruct (m_type m =? MsgReadIndex).
+  { inv_bind H. destruct (negb x); [inversion H; subst; exact HI|].
+    assert (Hans : forall ra c',
+      (x0 <- handle_ready_read_index r m (committed (r_log r)) ;;
+       let '(r1, om) := x0 in
+       r2 <- match om with Some mm => send r1 mm | None => Ok r1 end ;; Ok (r2, E_OK)) = Ok (ra, c') ->
+      LI rw ra).
+    { intros ra c' Ha. inv_bind Ha. destruct x0 as [r1 om]. inv_bind Ha. inversion Ha; subst.
+      apply handle_ready_read_index_log in Hx0.
+      destruct om; [apply send_log in Hx1|inversion Hx1; subst].
+      - eapply LI_same; [|exact HI]. congruence.
+      - eapply LI_same; [exact Hx0|exact HI]. }
+    match type of H with (if ?c then _ else _) = _ => destruct c end; [eapply Hans; exact H|].
+    destruct (ro_option (r_read_only r) =? 0); [|eapply Hans; exact H].
+    inv_bind H. inv_bind H. inv_bind H. inversion H; subst.
+    apply bcast_heartbeat_with_ctx_log in Hx2. eapply LI_same; [exact Hx2|exact HI]. }
+  destruct (m_type m =? MsgAppendResponse).
+  { inv_bind H. inversion H; subst. eapply handle_append_response_pres; eassumption. }
+  destruct (m_type m =? MsgHeartbeatResponse).
+  { inv_bind H. inversion H; subst. apply handle_heartbeat_response_log in Hx. eapply LI_same; eassumption. }
+  destruct (m_type m =? MsgSnapStatus).
+  { inv_bind H. inversion H; subst. apply handle_snapshot_status_log in Hx. eapply LI_same; eassumption. }
+  destruct (m_type m =? MsgUnreachable).
+  { inv_bind H. inversion H; subst. apply handle_unreachable_log in Hx. eapply LI_same; eassumption. }
+  destruct (m_type m =? MsgTransferLeader).
+  { inv_bind H. inversion H; subst. apply handle_transfer_leader_log in Hx. eapply LI_same; eassumption. }
+  inversion H; subst. exact HI.
+Qed.
+
+Lemma elect_type_vote_resp t :
+  (t =? MsgRequestPreVoteResponse) || (t =? MsgRequestVoteResponse) = true -> elect_type t = true.
+Proof.
+  unfold elect_type. intros H. apply orb_true_iff in H. destruct H as [H|H]; rewrite H;
+    rewrite ?orb_true_r; reflexivity.
+Qed.
+
+Lemma step_candidate_pres rw r m r' c :
+  step_candidate r m = Ok (r', c) -> msg_wf (last_index (r_log r)) m -> LI rw r -> LI rw r'.
+Proof.
+  unfold step_candidate. intros H (We & _ & Wa & Ws) HI.
+  destruct (m_type m =? MsgPropose). { inversion H; subst. exact HI. }
+  match type of H with (if ?c then _ else _) = _ => destruct c eqn:E1 end.
+  { destruct (negb (r_term r =? m_term m)); [discriminate|].
+    inv_bind H. destruct (become_follower_pres rw _ _ _ _ Hx HI) as [H1 L1].
+    inv_bind H. inversion H; subst.
+    destruct (m_type m =? MsgAppend) eqn:Ea.
+    { apply N.eqb_eq in Ea. eapply handle_append_entries_pres; [exact Hx0| |exact H1].
+      rewrite L1. exact (Wa Ea). }
+    destruct (m_type m =? MsgHeartbeat) eqn:Eh; [eapply handle_heartbeat_pres; eassumption|].
+    cbn [orb] in E1. apply N.eqb_eq in E1.
+    eapply handle_snapshot_pres; [exact Hx0|exact (Ws E1)|exact H1]. }
+  match type of H with (if ?c then _ else _) = _ => destruct c eqn:E2 end.
+  2:{ inversion H; subst. exact HI. }
+  match type of H with (if ?c then _ else _) = _ => destruct c end.
+  { inversion H; subst. exact HI. }
+  inv_bind H. destruct x as [r1 res]. inv_bind H. inversion H; subst. cbn [fst] in Hx0.
+  specialize (We (elect_type_vote_resp _ E2)).
+  eapply maybe_commit_by_vote_pres; [exact Hx0|]. eapply poll_pres; [exact Hx|exact HI|exact We].
+Qed.
+
+Lemma step_follower_pres rw r m r' c :
+  step_follower r m = Ok (r', c) -> msg_wf (last_index (r_log r)) m -> LI rw r -> LI rw r'.
+Proof.
+  unfold step_follower. intros H (We & _ & Wa & Ws) HI.
+  destruct (m_type m =? MsgPropose).
+  { destruct (r_leader_id r =? INVALID_ID); [inversion H; subst; exact HI|].
+    destruct (r_disable_proposal_forwarding r); [inversion H; subst; exact HI|].
+    inv_bind H. inversion H; subst. apply send_log in Hx. eapply LI_same; eassumption. }
+  destruct (m_type m =? MsgAppend) eqn:Ea.
+  { apply N.eqb_eq in Ea. inv_bind H. inversion H; subst.
+    eapply handle_append_entries_pres; [exact Hx|exact (Wa Ea)|exact HI]. }
+  destruct (m_type m =? MsgHeartbeat).
+  { inv_bind H. inversion H; subst. eapply handle_heartbeat_pres; [exact Hx|exact HI]. }
+  destruct (m_type m =? MsgSnapshot) eqn:Es.
+  { apply N.eqb_eq in Es. inv_bind H. inversion H; subst.
+    eapply handle_snapshot_pres; [exact Hx|exact (Ws Es)|exact HI]. }
+  destruct (m_type m =? MsgTransferLeader).
+  { destruct (r_leader_id r =? INVALID_ID); [inversion H; subst; exact HI|].
+    inv_bind H. inversion H; subst. apply send_log in Hx. eapply LI_same; eassumption. }
+  destruct (m_type m =? MsgTimeoutNow) eqn:Et.
+  { destruct (r_promotable r); [|inversion H; subst; exact HI].
+    inv_bind H. inversion H; subst. eapply hup_pres; [exact Hx|exact HI|].
+    apply We. unfold elect_type. rewrite Et. rewrite ?orb_true_r. reflexivity. }
+  destruct (m_type m =? MsgReadIndex).
+  { destruct (r_leader_id r =? INVALID_ID); [inversion H; subst; exact HI|].
+    inv_bind H. inversion H; subst. apply send_log in Hx. eapply LI_same; eassumption. }
+  destruct (m_type m =? MsgReadIndexResp).
+  { destruct (m_entries m) as [|e [|e2 es]]; try (inversion H; subst; exact HI).
+    inv_bind H. inversion H; subst. destruct x as [l' b].
+    exact (proj1 (log_maybe_commit_pres rw _ _ _ _ _ Hx HI)). }
+  inversion H; subst. exact HI.
+Qed.
+
+Lemma step_body_pres rw r m r' c :
+  step_body r m = Ok (r', c) -> msg_wf (last_index (r_log r)) m -> LI rw r -> LI rw r'.
+Proof.
+  unfold step_body. intros H W HI.
+  destruct (m_type m =? MsgHup) eqn:Eh.
+  { inv_bind H. inversion H; subst. eapply hup_pres; [exact Hx|exact HI|].
+    apply (proj1 W). unfold elect_type. rewrite Eh. reflexivity. }
+  match type of H with (if ?c then _ else _) = _ => destruct c end.
+  { inv_bind H. inv_bind H.
+    match type of H with (if ?c then _ else _) = _ => destruct c end.
+    - inv_bind H. apply send_log in Hx1.
+      destruct (m_type m =? MsgRequestVote); inversion H; subst; eapply LI_same; eassumption.
+    - inv_bind H. inv_bind H. inv_bind H. inversion H; subst. apply send_log in Hx2.
+      eapply maybe_commit_by_vote_pres; [exact Hx3|]. eapply LI_same; eassumption. }
+  unfold step_role in H. destruct (r_state r).
+  - eapply step_follower_pres; eassumption.
+  - eapply step_candidate_pres; eassumption.
+  - eapply step_leader_pres; eassumption.
+  - eapply step_candidate_pres; eassumption.
+Qed.
+
+Theorem step_pres rw r m r' c :
+  step r m = Ok (r', c) -> msg_wf (last_index (r_log r)) m -> LI rw r -> LI rw r'.
+Proof.
+  intros H W HI. rewrite step_decompose in H. inv_bind H. apply step_prologue_spec in Hx.
+  destruct x as [[r1 c1]|r1].
+  - inversion H; subst. eapply LI_same; [apply lf_log; apply Hx|exact HI].
+  - destruct Hx as [-> |(_ & l & Hbf)]; [eapply step_body_pres; eassumption|].
+    destruct (become_follower_pres rw _ _ _ _ Hbf HI) as [H1 L1].
+    eapply step_body_pres; [exact H| |exact H1]. rewrite L1. exact W.
+Qed.
+
+(* messages of a type that involves no log growth are well-formed for every log *)
+Lemma msg_wf_plain li m :
+  elect_type (m_type m) = false -> m_type m <> MsgPropose -> m_type m <> MsgAppend ->
+  m_type m <> MsgSnapshot -> msg_wf li m.
+Proof. intros A B C0 D. unfold msg_wf. splits; intros E; congruence. Qed.
+
+(* ---------------- tick ---------------- *)
+Lemma tick_election_pres rw r r' b :
+  tick_election r = Ok (r', b) -> LI rw r -> room 1 r -> LI rw r'.
+Proof.
+  unfold tick_election. intros H HI Hroom.
+  match type of H with (if ?c then _ else _) = _ => destruct c end; [inversion H; subst; exact HI|].
+  inv_bind H. inversion H; subst. destruct x as [r1 c]. cbn [fst].
+  eapply step_pres; [exact Hx| |exact HI].
+  unfold msg_wf. cbn. splits; try (intros E; discriminate). intros _. exact Hroom.
+Qed.
+
+Lemma tick_heartbeat_pres rw r r' b : tick_heartbeat r = Ok (r', b) -> LI rw r -> LI rw r'.
+Proof.
+  unfold tick_heartbeat. intros H HI. inv_bind H. destruct x as [r1 hr].
+  assert (H1 : LI rw r1).
+  { match type of Hx with (if ?c then _ else _) = _ => destruct c end; [|inversion Hx; subst; exact HI].
+    inv_bind Hx. destruct x as [ra ha]. inversion Hx; subst.
+    assert (Ha : LI rw ra).
+    { destruct (r_check_quorum _); [|inversion Hx0; subst; exact HI].
+      inv_bind Hx0. inversion Hx0; subst. destruct x as [rb cb]. cbn [fst].
+      eapply step_pres; [exact Hx1| |exact HI].
+      apply msg_wf_plain; cbn; [reflexivity|discriminate|discriminate|discriminate]. }
+    match goal with |- LI rw (if ?c then _ else _) => destruct c end; exact Ha. }
+  destruct (negb (is_leader r1)); [inversion H; subst; exact H1|].
+  match type of H with (if ?c then _ else _) = _ => destruct c end; [|inversion H; subst; exact H1].
+  inv_bind H. inversion H; subst. destruct x as [rb cb]. cbn [fst].
+  eapply step_pres; [exact Hx0| |exact H1].
+  apply msg_wf_plain; cbn; [reflexivity|discriminate|discriminate|discriminate].
+Qed.
+
+Theorem tick_pres rw r r' b : tick r = Ok (r', b) -> LI rw r -> room 1 r -> LI rw r'.
+Proof.
+  unfold tick. intros H HI Hroom. destruct (r_state r);
+    first [eapply tick_election_pres; eassumption|eapply tick_heartbeat_pres; eassumption].
+Qed.
+
+(* ---------------- persistence notices ---------------- *)
+Theorem on_persist_entries_pres rw r i t r' :
+  on_persist_entries r i t = Ok r' -> LI rw r ->
+  LI rw r' /\ same_su (r_log r) (r_log r').
+Proof.
+  unfold on_persist_entries. intros H HI. inv_bind H. destruct x as [l' upd].
+  destruct (maybe_persist_pres rw _ _ _ _ _ Hx HI) as [A B].
+  match type of H with (if ?c then _ else _) = _ => destruct c end;
+    [|inversion H; subst; split; assumption].
+  match type of H with (match ?g with _ => _ end) = _ => destruct g as [pr|] end;
+    [|inversion H; subst; split; assumption].
+  destruct (maybe_update pr i) as [pr' u]. destruct u; [|inversion H; subst; split; assumption].
+  inv_bind H. destruct x as [r1 c].
+  match type of Hx0 with maybe_commit ?ra = _ => assert (Ha : LI rw ra) by exact A end.
+  destruct (maybe_commit_pres rw _ _ _ Hx0 Ha) as [H1 S1]. cbn in S1.
+  assert (S01 : same_su (r_log r) (r_log r1)) by (eapply same_su_trans; eassumption).
+  match type of H with (if ?c then _ else _) = _ => destruct c end.
+  - apply bcast_append_log in H. unfold LI. rewrite H. split; assumption.
+  - inversion H; subst. split; assumption.
+Qed.
+
+Theorem on_persist_snap_pres rw r i r' :
+  on_persist_snap r i = Ok r' -> LI rw r ->
+  (persisted (r_log r) < i -> i < next_of (store (r_log r))) ->
+  LI rw r' /\ same_su (r_log r) (r_log r').
+Proof.
+  unfold on_persist_snap. intros H HI Hn. inv_bind H. destruct x as [l' b]. inversion H; subst.
+  exact (maybe_persist_snap_pres rw _ _ _ _ Hx HI Hn).
+Qed.
+
+(* ---------------- commit_apply ---------------- *)
+Theorem commit_apply_pres rw r a r' :
+  commit_apply r a = Ok r' -> LI rw r -> (is_leader r = true -> room 1 r) -> LI rw r'.
+Proof.
+  unfold commit_apply, commit_apply_internal. cbn [negb]. intros H HI Hroom.
+  inv_bind H. destruct (applied_to_pres rw _ _ _ Hx HI) as [A B].
+  match type of H with (if ?c then _ else _) = _ => destruct c eqn:Ec end;
+    [|inversion H; subst; exact A].
+  inv_bind H. destruct x0 as [r1 ok]. destruct ok; cbn [negb] in H; [|discriminate].
+  inversion H; subst. cbn.
+  apply andb_prop in Ec. destruct Ec as [_ El]. change (is_leader r = true) in El.
+  destruct (append_entry_pres rw _ _ _ _ Hx0 A) as (H1 & _); [|exact H1].
+  unfold room. cbn. rewrite (same_su_last _ _ B). exact (Hroom El).
+Qed.
+
+(* the unchecked variant used by Raft::new: the restart window opens *)
+Lemma commit_apply_internal_unchecked_pres rw r a r' :
+  commit_apply_internal r a true = Ok r' -> LI rw r -> is_leader r = false -> LI true r'.
+Proof.
+  unfold commit_apply_internal. cbn [negb]. intros H HI Hl.
+  destruct (a =? 0); [discriminate|]. cbn [bind] in H.
+  change (is_leader (r <| r_log := applied_to_unchecked (r_log r) a |>)) with (is_leader r) in H.
+  rewrite Hl, andb_false_r in H. inversion H; subst.
+  unfold LI. cbn. eapply applied_to_unchecked_pres; exact HI.
+Qed.
+
+(* ---------------- apply_conf_change / load_state / the rest of the API ---------------- *)
+Theorem raft_apply_conf_change_pres rw r cc r' ocs :
+  raft_apply_conf_change r cc = Ok (r', ocs) -> LI rw r ->
+  LI rw r' /\ same_su (r_log r) (r_log r').
+Proof.
+  unfold raft_apply_conf_change. intros H HI.
+  match type of H with (match ?g with _ => _ end) = _ => destruct g as [[c' chs]|e] end.
+  - inv_bind H. destruct x as [r1 cs]. inversion H; subst. cbn [fst].
+    match type of Hx with post_conf_change ?ra = _ => assert (Ha : LI rw ra) by exact HI end.
+    exact (post_conf_change_pres rw _ _ _ Hx Ha).
+  - inversion H; subst. split; [exact HI|apply same_su_refl].
+Qed.
+
+Theorem load_state_pres rw r hs r' : load_state r hs = Ok r' -> LI rw r -> LI rw r'.
+Proof.
+  unfold load_state. intros H HI.
+  match type of H with (if ?c then _ else _) = _ => destruct c eqn:E end; [discriminate|].
+  inversion H; subst. unfold LI. cbn.
+  apply orb_false_elim in E. destruct E as [E1 E2].
+  rewrite (abs_last rw _ HI) in E2.
+  apply RepInv_set_committed; [exact HI|lia|lia|].
+  intros Hrw. pose proof (ri_applied rw _ HI Hrw). lia.
+Qed.
+
+Theorem request_snapshot_log r r' c : request_snapshot r = Ok (r', c) -> r_log r' = r_log r.
+Proof.
+  unfold request_snapshot. intros H.
+  destruct (is_leader r); [inversion H; reflexivity|].
+  destruct (r_leader_id r =? INVALID_ID); [inversion H; reflexivity|].
+  match type of H with (if ?c then _ else _) = _ => destruct c end; [inversion H; reflexivity|].
+  destruct (negb _); [inversion H; reflexivity|].
+  inv_bind H. destruct x; [|discriminate].
+  destruct (r_term r =? a); [|inversion H; reflexivity].
+  inv_bind H. inversion H; subst. apply send_request_snapshot_log in Hx0. rewrite Hx0. reflexivity.
+Qed.
+
+Theorem ping_log r r' : ping r = Ok r' -> r_log r' = r_log r.
+Proof.
+  unfold ping. intros H. destruct (is_leader r); [eapply bcast_heartbeat_log; exact H|].
+  inversion H; reflexivity.
+Qed.
+
+Theorem adjust_max_inflight_msgs_log r target cap r' :
+  adjust_max_inflight_msgs r target cap = Ok r' -> r_log r' = r_log r.
+Proof.
+  unfold adjust_max_inflight_msgs. intros H. destruct (get_pr r target); [|inversion H; reflexivity].
+  inv_bind H. inversion H; reflexivity.
+Qed.
+
+Theorem maybe_free_inflight_buffers_log r : r_log (maybe_free_inflight_buffers r) = r_log r.
+Proof. reflexivity. Qed.
+
+Theorem set_max_apply_unpersisted_log_limit_pres rw r lim :
+  LI rw r -> LI rw (set_max_apply_unpersisted_log_limit r lim).
+Proof. intros H. unfold LI. cbn. apply RepInv_set_limit. exact H. Qed.
+
+Theorem enable_group_commit_pres rw r e r' : enable_group_commit r e = Ok r' -> LI rw r -> LI rw r'.
+Proof.
+  unfold enable_group_commit. intros H HI.
+  match type of H with (if ?c then _ else _) = _ => destruct c end; [|inversion H; subst; exact HI].
+  inv_bind H. destruct x as [r1 b]. cbn [fst snd] in H.
+  match type of Hx with maybe_commit ?ra = _ => assert (Ha : LI rw ra) by exact HI end.
+  destruct (maybe_commit_pres rw _ _ _ Hx Ha) as [H1 _].
+  destruct b; [apply bcast_append_log in H; eapply LI_same; eassumption|inversion H; subst; exact H1].
+Qed.
+
+Theorem assign_commit_groups_pres rw r ids r' : assign_commit_groups r ids = Ok r' -> LI rw r -> LI rw r'.
+Proof.
+  unfold assign_commit_groups. intros H HI. inv_bind H.
+  match type of H with (if ?c then _ else _) = _ => destruct c end; [|inversion H; subst; exact HI].
+  inv_bind H. destruct x0 as [r1 b]. cbn [fst snd] in H.
+  match type of Hx0 with maybe_commit ?ra = _ => assert (Ha : LI rw ra) by exact HI end.
+  destruct (maybe_commit_pres rw _ _ _ Hx0 Ha) as [H1 _].
+  destruct b; [apply bcast_append_log in H; eapply LI_same; eassumption|inversion H; subst; exact H1].
+Qed.
